@@ -307,6 +307,14 @@ func (m *Message) WriteToStreamWithRetry(writer io.Writer, stream, retries uint)
 		return 0, err
 	}
 	switch w := writer.(type) {
+	case *response:
+		// A connection of this package: unless it is multi-stream, it
+		// retries under its write lock, so that messages of other
+		// goroutines cannot get in between two attempts.
+		if _, isMulti := w.conn.rwc.(MultistreamConn); !isMulti && retries > 0 {
+			return w.writeRetry(b, retries)
+		}
+		return writeStreamRetry(w, b, stream, retries)
 	case MultistreamWriter:
 		return writeStreamRetry(w, b, stream, retries)
 	default:
